@@ -1,77 +1,10 @@
+// Command c13: correspondence driver for property C13 (built by ./check as .build/harness-C13).
 package main
 
 import (
-	"context"
-	"fmt"
-	"time"
+	"os"
 
-	"github.com/deckhouse/deckhouse/pkg/log"
-	"github.com/flant/kube-client/fake"
-	"github.com/flant/kube-client/manifest"
-	objectpatch "github.com/flant/shell-operator/pkg/kube/object_patch"
-	metav1 "k8s.io/apimachinery/pkg/apis/meta/v1"
+	"verifharness/internal/c13"
 )
 
-func dump(c *fake.Cluster) {
-	gvr, _ := c.Client.GroupVersionResource("v1", "ConfigMap")
-	l, err := c.Client.Dynamic().Resource(gvr).Namespace("").List(context.TODO(), metav1.ListOptions{})
-	if err != nil {
-		fmt.Println("list err", err)
-		return
-	}
-	for _, o := range l.Items {
-		fmt.Printf("   %s/%s rv=%q data=%v labels=%v\n", o.GetNamespace(), o.GetName(), o.GetResourceVersion(), o.Object["data"], o.GetLabels())
-	}
-}
-
-func try(name string, c *fake.Cluster, stream string) {
-	defer func() {
-		if r := recover(); r != nil {
-			fmt.Printf("== %s: PANIC %v\n", name, r)
-		}
-	}()
-	t0 := time.Now()
-	ops, err := objectpatch.ParseOperations([]byte(stream))
-	fmt.Printf("== %s: parse ops=%d err=%v\n", name, len(ops), err != nil)
-	if err != nil {
-		fmt.Println("   ", err)
-		return
-	}
-	p := objectpatch.NewObjectPatcher(c.Client, log.NewNop())
-	err = p.ExecuteOperations(ops)
-	fmt.Printf("   exec err=%v (%v)\n", err, time.Since(t0))
-	dump(c)
-}
-
-func main() {
-	t0 := time.Now()
-	c := fake.NewFakeCluster(fake.ClusterVersionV119)
-	fmt.Println("new cluster", time.Since(t0))
-	c.CreateNs("default")
-	c.Create("default", manifest.MustFromYAML("apiVersion: v1\nkind: ConfigMap\nmetadata:\n  name: cm1\ndata:\n  foo: bar\n"))
-	dump(c)
-	try("create json", c, `{"operation":"Create","object":{"apiVersion":"v1","kind":"ConfigMap","metadata":{"name":"cm2","namespace":"default","labels":{"n":"1"}},"data":{"a":"1"}}}`)
-	try("create existing", c, `{"operation":"Create","object":{"apiVersion":"v1","kind":"ConfigMap","metadata":{"name":"cm2","namespace":"default"},"data":{"a":"2"}}}`)
-	try("createIfNotExists existing", c, `{"operation":"CreateIfNotExists","object":{"apiVersion":"v1","kind":"ConfigMap","metadata":{"name":"cm2","namespace":"default"},"data":{"a":"3"}}}`)
-	try("createOrUpdate existing", c, `{"operation":"CreateOrUpdate","object":{"apiVersion":"v1","kind":"ConfigMap","metadata":{"name":"cm2","namespace":"default"},"data":{"a":"4"}}}`)
-	try("create string obj", c, `{"operation":"Create","object":"apiVersion: v1\nkind: ConfigMap\nmetadata:\n  name: cm3\n  namespace: default\n  annotations:\n    n: \"5\"\ndata:\n  x: y\n"}`)
-	try("merge", c, `{"operation":"MergePatch","kind":"ConfigMap","apiVersion":"v1","namespace":"default","name":"cm1","mergePatch":{"data":{"foo":null,"z":"1"}}}`)
-	try("merge missing", c, `{"operation":"MergePatch","kind":"ConfigMap","apiVersion":"v1","namespace":"default","name":"nope","mergePatch":{"data":{"z":"1"}}}
-{"operation":"MergePatch","kind":"ConfigMap","apiVersion":"v1","namespace":"default","name":"cm1","mergePatch":"{\"data\":{\"after\":\"err\"}}"}`)
-	try("merge missing ignore", c, `{"operation":"MergePatch","kind":"ConfigMap","apiVersion":"v1","namespace":"default","name":"nope","ignoreMissingObject":true,"mergePatch":{"data":{"z":"1"}}}`)
-	try("jsonpatch", c, `{"operation":"JSONPatch","kind":"ConfigMap","apiVersion":"v1","namespace":"default","name":"cm1","jsonPatch":[{"op":"add","path":"/data/q","value":"1"},{"op":"remove","path":"/data/z","value":null}]}`)
-	try("jsonpatch bad", c, `{"operation":"JSONPatch","kind":"ConfigMap","apiVersion":"v1","namespace":"default","name":"cm1","jsonPatch":[{"op":"remove","path":"/data/nonexistent","value":null}]}`)
-	try("jq", c, `{"operation":"JQPatch","kind":"ConfigMap","apiVersion":"v1","namespace":"default","name":"cm1","jqFilter":".data.j = \"k\""}`)
-	try("jq missing", c, `{"operation":"JQPatch","kind":"ConfigMap","apiVersion":"v1","namespace":"default","name":"nope","jqFilter":".data.j = \"k\""}`)
-	try("jq status subresource", c, `{"operation":"JQPatch","kind":"ConfigMap","apiVersion":"v1","namespace":"default","name":"cm1","subresource":"status","jqFilter":".data.s = \"t\""}`)
-	try("merge subresource", c, `{"operation":"MergePatch","kind":"ConfigMap","apiVersion":"v1","namespace":"default","name":"cm1","subresource":"status","mergePatch":{"data":{"sub":"1"}}}`)
-	try("delete bg", c, `{"operation":"DeleteInBackground","kind":"ConfigMap","apiVersion":"v1","namespace":"default","name":"cm2"}`)
-	try("delete nc missing", c, `{"operation":"DeleteNonCascading","kind":"ConfigMap","apiVersion":"v1","namespace":"default","name":"cm2"}`)
-	try("delete fg", c, `{"operation":"Delete","kind":"ConfigMap","apiVersion":"v1","namespace":"default","name":"cm3"}`)
-	try("unknown kind", c, `{"operation":"DeleteInBackground","kind":"Nope","apiVersion":"v1","namespace":"default","name":"cm3"}`)
-	try("no namespace create", c, `{"operation":"Create","object":{"apiVersion":"v1","kind":"ConfigMap","metadata":{"name":"cm9"},"data":{"a":"1"}}}`)
-	try("yaml create int", c, "operation: Create\nobject:\n  apiVersion: v1\n  kind: ConfigMap\n  metadata:\n    name: cmy\n    namespace: default\n    labels:\n      a: b\n  data:\n    a: \"1\"\n  immutable: false\n  x: 5\n")
-	try("yaml createOrUpdate no int", c, "operation: CreateOrUpdate\nobject:\n  apiVersion: v1\n  kind: ConfigMap\n  metadata:\n    name: cm1\n    namespace: default\n  data:\n    a: \"1\"\n")
-	try("invalid second", c, `{"operation":"Create","object":{"apiVersion":"v1","kind":"ConfigMap","metadata":{"name":"cm7","namespace":"default"}}}
-{"operation":"Bogus"}`)
-}
+func main() { c13.Driver.Main("C13", os.Args[1:]) }
